@@ -90,7 +90,9 @@ def field? (pre : String) (s : String) : Option String :=
   if s.startsWith pre then some (s.drop pre.length).toString else none
 
 def handleTrace : List String → String
-  | [np, nm, _mode, w, lost, multi, before, after, leak, _note] =>
+  | [np, nm, _mode, w, lost, multi, before, after, leak, note] =>
+    -- a caller, the disconnect or the handshake that never returned is outside every schedule
+    if note != "note=-" then "unexplained:" ++ note else
     match np.toNat?, nm.toNat?, (field? "w=" w).bind parseNats?, (field? "lost=" lost).bind parseNats?,
           (field? "multi=" multi).bind parseMulti?, (field? "before=" before).bind parseNats?,
           (field? "after=" after).bind parseNats?, (field? "leak=" leak).bind parseBool? with
